@@ -9,6 +9,7 @@
   graph by the exporter (harness/export.py) on every generated input - see DESIGN.md.
 -/
 import Mistletoe.Proofs.Traverse
+import Mistletoe.Props.C01
 import Mistletoe.Model.AstJson
 namespace Mistletoe.Props.C12
 open Mistletoe Mistletoe.Traverse Mistletoe.AstJson
@@ -101,5 +102,29 @@ def sample : RTree := .node 0 0 [.node 1 1 [.node 3 2 [], .node 4 2 []], .node 2
 example : (traverse sample (fun _ => true) none false).map (·.node.id) = [1, 2, 3, 4, 5, 6] := by decide
 example : (descendants 1 sample).map (·.node.id) = [1, 3, 4, 2, 5, 6] := by decide
 example : (traverse sample (fun c => c == 2) (some 2) true).map (fun r => (r.node.id, r.depth)) = [(3, 2), (4, 2), (5, 2)] := by decide
+
+
+/-! ### Scalar ranges of parsed documents (clause "scalar attributes are in range")
+
+  Proved over the block-parser model in `Proofs/DocTotal.lean` (well-formedness of every parse buffer,
+  at every nesting depth, for every list of complete lines): restated here because they are C12's clauses.
+  `subEntriesL` lists every entry of a buffer at any depth. -/
+
+open Mistletoe.Block in
+/-- **heading level 1-6**: every ATX heading entry produced by the block phase, at any nesting depth, has a
+    level between 1 and 6 (the level the `Heading` constructor stores) -/
+theorem C12_heading_level_range (cfg : Cfg) (gas : Nat) (lines : List Str) (b : Buf) (st : St)
+    (hl : ∀ s ∈ lines, NlEnd s) (h : blockPhase cfg gas lines = .ok (b, st))
+    (lvl : Nat) (c cl : Str) (ln og : Nat) (hm : Entry.heading lvl c cl ln og ∈ subEntriesL b.entries) : 1 ≤ lvl ∧ lvl ≤ 6 :=
+  C01.C01_heading_level_range cfg gas lines b st hl h lvl c cl ln og hm
+
+open Mistletoe.Block in
+/-- **lists hold items**: every list entry at any depth has at least one item, each with a well-formed leader
+    (one bullet character, or 1-9 digits and a delimiter - so that `int(leader[:-1])`, the list's `start`, is
+    defined and is read off the first item's marker) -/
+theorem C12_list_items (cfg : Cfg) (gas : Nat) (lines : List Str) (b : Buf) (st : St)
+    (hl : ∀ s ∈ lines, NlEnd s) (h : blockPhase cfg gas lines = .ok (b, st))
+    (items : List Item) (ln og : Nat) (hm : Entry.list items ln og ∈ subEntriesL b.entries) : 1 ≤ items.length ∧ ItemsWF items :=
+  C01.C01_list_nonempty cfg gas lines b st hl h items ln og hm
 
 end Mistletoe.Props.C12
